@@ -54,6 +54,9 @@ func c20Run(c *mc.Ctx) {
 			}
 		}
 		w.Items = nil
+		// whether a header whose last element was deleted still has the X bit is not said
+		// anywhere: the original is taken as it is and the clone must equal it
+		w.X = p.Header.Extension
 	}
 	var wire []byte
 	if fromWire {
